@@ -157,8 +157,8 @@ def _value_of_kind(sx, kind, tag):
 
 
 def _admissible(v, types):
-    if v is None or (isinstance(v, list) and not v and not isinstance(v, str)):
-        return True      # null is delivered as None (or as an empty list for complex slots)
+    if v is None:
+        return True      # null is delivered as None
     from symx.core import Sym
     if isinstance(v, Sym):
         from symx.shim import pytype_of
